@@ -316,6 +316,46 @@ fn run_non_interference(case: &Case, rep: &mut RunReport) -> Result<(), Violatio
         }
         rep.probe("differential_answers_compared", 1);
     }
+    // paged history reads: page shapes (entries per page, whether a cursor
+    // follows) and page contents must be the same on both stores - totals and
+    // cursors computed over hidden transactions show up as empty or short pages
+    for (first, next) in [
+        ("HISTORY SPACE LIMIT 2", Box::new(|c: &str| format!("HISTORY SPACE LIMIT 2 CURSOR {c}")) as Box<dyn Fn(&str) -> String>),
+        ("CHANGES AFTER SEQ 0 LIMIT 2", Box::new(|c: &str| format!("CHANGES SINCE {c} LIMIT 2")) as Box<dyn Fn(&str) -> String>),
+        ("HISTORY SPACE LIMIT 1", Box::new(|c: &str| format!("HISTORY SPACE LIMIT 1 CURSOR {c}")) as Box<dyn Fn(&str) -> String>),
+    ] {
+        let pages = |sess: &Session| -> Vec<(usize, bool, String)> {
+            let mut out = Vec::new();
+            let mut cmd = first.to_string();
+            for _ in 0..40 {
+                let o = block(exec(sess, &cmd, false));
+                if !o.ok() {
+                    out.push((usize::MAX, false, format!("ERROR:{:?}", o.error)));
+                    break;
+                }
+                let n = o.result.as_array().map(|a| a.len()).unwrap_or(0);
+                let cursor = o.raw["next_cursor"].as_str().or_else(|| o.raw["results"][0]["next_cursor"].as_str()).map(|s| s.to_string());
+                out.push((n, cursor.is_some(), canon_ids(&o.result)));
+                match cursor {
+                    Some(c) => cmd = next(&c),
+                    None => break,
+                }
+            }
+            out
+        };
+        let (pa, pb) = (pages(&p_full), pages(&p_clone));
+        if pa != pb {
+            let shape = |p: &[(usize, bool, String)]| p.iter().map(|(n, c, _)| (*n, *c)).collect::<Vec<_>>();
+            return Err(violation!(
+                "c19.interference.paging",
+                "principal {READER} pages through `{first}`: on the full store the pages are {:?}, on the store without the hidden elements {:?} (entries per page, cursor follows); history: {:?}",
+                shape(&pa),
+                shape(&pb),
+                executed
+            ));
+        }
+        rep.probe("paged_history_reads_compared", pa.len() as u64);
+    }
     // and the principal sees every low element the owner of the clone sees
     let names = |s: &Session| canon(&block(exec(s, r#"FIND(?c.name) WHERE { ?c CONCEPT {} } ORDER BY ?c.name"#, false)).result);
     if names(&p_clone) != names(&owner_clone) {
